@@ -164,6 +164,17 @@ def candidates (n : Nat) (nonzero : Bool) (seed : UInt64) (count : Nat) : Array 
       let vF := Float.ofInt vI
       xs := xs.push (if nonzero && vF == 0.0 then 3.0 else vF)
     out := out.push xs
+  -- seeded values of other magnitudes: unit-interval fractions, a range that covers angles in degrees, mixed
+  for round in [0:count] do
+    let mut xs : Array Float := #[]
+    for k in [0:n] do
+      let (s', r) := nextRand s
+      s := s'
+      let u := (r % 1000003).toNat.toFloat / 1000003.0
+      let mode := (round + (if round % 3 == 2 then k else 0)) % 3
+      let vF := if mode == 0 then u else if mode == 1 then (u - 0.25) * 480.0 else (u - 0.5) * 8.0
+      xs := xs.push (if nonzero && vF == 0.0 then 0.5 else vF)
+    out := out.push xs
   return out
 
 /-- "different result": different bit patterns, NaNs identified (so +0 vs -0 counts, as C01 demands) -/
